@@ -24,7 +24,7 @@ from dimod import (BinaryQuadraticModel as BQM, QuadraticModel as QM, Constraine
 
 from harness.common import lab, rat, run_driver
 from harness.props.energy_common import (LABELS, Recipe, q8, F, fl, poly_value, rats, labs, qmb_tokens, parse_qmb, qmb_canon,
-                                         model_canon, perm_of, exc_class, gen_bqm, gen_qm)
+                                         model_canon, perm_of, exc_class, gen_bqm, gen_qm, edit_history)
 from harness.props.c01 import Batch
 from harness.props.c02 import GP, gen_cqm, cqm_tokens, cqm_canon_real, cqm_canon_tok, state_line
 
@@ -137,6 +137,14 @@ def case_model_fix(ctx, r, B):
     if r.random() < .5:
         dtype = r.choice(['np.float64', 'np.float32', 'object'])
         labels, vt = gen_bqm(r, R, dtype=dtype, nmax=5)
+        if labels and r.random() < .4:
+            # "at any point of an edit history": the model that is fixed has been relabelled / contracted / copied / converted … before
+            if edit_history(ctx, r, R, dtype, nops=r.randint(1, 3), tag='history op before fixing') is None:
+                return
+            labels, vt = list(R['m'].variables), R['m'].vartype.name
+            if len(labels) > 5 or any(abs(F(b)) > 64 for _, b in R['m'].iter_linear()) or any(abs(F(b)) > 64 for _, _, b in R['m'].iter_quadratic()):
+                return
+            ctx.tick('fixed after an edit history')
         vts = {v: vt for v in labels}
         cls = 'BQM' + ('[object]' if dtype == 'object' else '[float32]' if dtype == 'np.float32' else '')
     else:
